@@ -301,9 +301,79 @@ func c43(name, items string, workers int) e1lib.Scenario {
 	return e1lib.Scenario{Name: name, Body: body, Check: check, Cfg: rt.Config{Horizon: 10 * time.Second, TimeJumps: true}}
 }
 
+// c43overflow: first the reorder buffer overflows once (a lazy decode worker holds the head-of-line
+// block while more than MaxPendingBlocks successors overtake it), the pipeline recovers and drains;
+// then one more block is submitted and WaitForDrain must still wait for it.
+func c43overflow(name string, workers, maxPending int, lazy []string) e1lib.Scenario {
+	body := func() {
+		ctx := vcontext.Background()
+		p := pipeline.NewBlockPipeline(
+			pipeline.WithDecodeWorkers(workers),
+			pipeline.WithPrefetchBufferSize(4),
+			pipeline.WithMaxPendingBlocks(maxPending),
+			pipeline.WithApplyFunc(func(b *pipeline.BlockItem) error {
+				rt.Log("apply %d", b.SequenceNumber())
+				return nil
+			}),
+		)
+		if err := p.Start(ctx); err != nil {
+			return
+		}
+		rt.Go("results", func() {
+			for it := range rt.Range("h:results", p.Results()) {
+				rt.Log("finished %d", it.SequenceNumber())
+			}
+		})
+		rt.Go("errors", func() {
+			for err := range rt.Range("h:errors", p.Errors()) {
+				rt.Log("pipeline error: %v", err)
+			}
+		})
+		f := fixtures['B']
+		for i := 0; i < 3; i++ {
+			p.Submit(ctx, f.typ, f.cbor, pcommon.Tip{})
+		}
+		d1, c1 := vcontext.WithTimeout(ctx, 2*time.Second)
+		p.WaitForDrain(d1)
+		c1()
+		vtime.Sleep(300 * time.Millisecond)
+		rt.Log("phase1 over")
+		p.Submit(ctx, f.typ, f.cbor, pcommon.Tip{})
+		d2, c2 := vcontext.WithTimeout(ctx, 2*time.Second)
+		err := p.WaitForDrain(d2)
+		c2()
+		if err == nil {
+			rt.Log("drained")
+		} else {
+			rt.Log("drain error")
+		}
+		vtime.Sleep(300 * time.Millisecond)
+		p.Stop()
+		rt.Log("end")
+	}
+	check := func(r *rt.Result) []rt.Finding {
+		if f := verdictFinding(r); f != nil {
+			return f
+		}
+		drained := false
+		for _, l := range r.Logs {
+			switch {
+			case l == "drained":
+				drained = true
+			case strings.HasPrefix(l, "apply ") && drained:
+				return []rt.Finding{{Key: "c43:apply-after-drain", What: "WaitForDrain returned nil and then " + l + " ran: " + strings.Join(r.Logs, " | ")}}
+			}
+		}
+		return nil
+	}
+	return e1lib.Scenario{Name: name, Body: body, Check: check, Cfg: rt.Config{Horizon: 20 * time.Second, TimeJumps: true, Lazy: lazy}}
+}
+
 func TestC43(t *testing.T) {
 	e1lib.Main(t, "C43", func(thorough bool) []e1lib.Scenario {
-		scs := []e1lib.Scenario{c43("drain-B-w1", "B", 1), c43("drain-BS-w2", "BS", 2), c43("drain-xB-w1", "xB", 1)}
+		scs := []e1lib.Scenario{c43("drain-B-w1", "B", 1), c43("drain-BS-w2", "BS", 2), c43("drain-xB-w1", "xB", 1),
+			c43overflow("overflow-w3-max1-lazy0", 3, 1, []string{"worker_pool.go:105#0"}),
+			c43overflow("overflow-w3-max1-lazy1", 3, 1, []string{"worker_pool.go:105#1"})}
 		if thorough {
 			scs = append(scs, c43("drain-BSB-w2", "BSB", 2))
 		}
